@@ -97,7 +97,7 @@ func (c *Chain) ReadCtx() sdk.Context {
 		return cc
 	}
 	hdr := c.header(c.Height, c.Time)
-	cc, _ := c.App.BaseApp.NewContext(true, hdr).WithGasMeter(sdk.NewInfiniteGasMeter()).CacheContext()
+	cc, _ := c.App.BaseApp.NewContext(true, hdr).WithIsCheckTx(false).WithGasMeter(sdk.NewInfiniteGasMeter()).CacheContext()
 	return cc
 }
 
